@@ -57,9 +57,9 @@ CHECKS = {
     "C16": {
         "engine": "E6",
         "technique": "translation validation: the grammar is compiled with Lark as the Makefile does; terminals, rules (up to renaming of generated helper nonterminals), options and the LALR automaton (isomorphism by BFS from the start states) are compared with the tables extracted from _parser.py by an AST literal evaluator",
-        "level_text": "Same terminals, same rules including tree-shaping options, and isomorphic LALR tables run by the same table-driven runtime accept the same language and build the same trees, for every input string and both start symbols; the embedded lexer is shown to consume input only through the scanner built from that terminal table (R16.7). Complete for the language question given the trusted embedded runtime; no input is parsed.",
+        "level_text": "Same terminals, same rules including tree-shaping options, and isomorphic LALR tables run by the same table-driven runtime accept the same language and build the same trees, for every input string and both start symbols; the embedded lexer is shown to consume input only through the scanner built from that terminal table (R16.7), the LALR driver to read actions and gotos from those tables (R16.8), and 191 of the 250 functions of the embedded runtime are AST-identical to the installed Lark's source (R16.9; the 59 that differ between the two Lark versions are a recorded residue). Complete for the language question given the trusted embedded runtime; no input is parsed.",
         "design_ref": "DESIGN.md section 4, C16",
-        "level_note": "Trusted: the Lark 1.1.2 runtime embedded in _parser.py (no reference copy offline), Lark 1.3.1 as grammar compiler. Serialisation fields only one version has are skipped and named in the evidence.",
+        "level_note": "Trusted: the 59 functions of the embedded Lark 1.1.2 runtime that differ from Lark 1.3.1 (sa/data/lark_runtime_residue.json; no reference copy of 1.1.2 offline), Lark 1.3.1 as grammar compiler and as reference source. Serialisation fields only one version has are skipped and named in the evidence.",
     },
     "C17": {
         "engine": "E1+E2/E3+E6",
@@ -113,7 +113,7 @@ CHECKS = {
     "C15": {
         "engine": "E1+E6+E5",
         "technique": "structural agreement rules between sibling codecs (__getnewargs_ex__ vs __new__ key parameters; __json__ keys vs __from_json__ reads; tag dispatch table; Decimal writer/reader pairing; pickle hook inventory) + the formatter-language inclusion of C13 at the serialisation sites",
-        "level_text": "Writer and reader of each representation are compared as tables extracted from the AST: keys, tags, positions and type conversions must agree, nothing may route a Quantity's unit through text for pickle/copy, and the Dimension/Prefix decoders must rebuild from the encoded structural key on every path (R15.7). The stored unit text is str(unit); its language is checked against the parser (three known findings inherited from C13, hence 'other').",
+        "level_text": "Writer and reader of each representation are compared as tables extracted from the AST: keys, tags, positions and type conversions must agree, nothing may route a Quantity's unit through text for pickle/copy, and the Dimension/Prefix decoders must rebuild from the encoded structural key on every path (R15.7). The stored unit text is str(unit); its language is checked against the parser (three known findings inherited from C13 R13.3 and seven from the symbol-table rule R15.8 = C13 R13.2: a quantity in centi-days decodes as candela; hence 'other').",
         "design_ref": "DESIGN.md section 4, C15",
         "level_note": "Trusted: CPython's pickle/copy/json protocols; E5 tables (every base unit is named). Not decided: equality of decoded float magnitudes; third-party serializers.",
     },
